@@ -572,6 +572,38 @@ def gen(tier):
     for how in ('bind', 'reference_then_bind'):
       yield ['dotted', scope, how]
   yield ['dynorder']
+  yield ['rereg', True]
+  yield ['rereg', False]
+
+
+# --------------------------------------------------------------------- a referenced function is registered again
+def _rr_fn(x=None):
+  return x
+
+
+def run_rereg(case, res):
+  """History: a function is registered, referenced from a binding, and then registered again under the same name (a
+  module imported twice under two names does this): the reference binding is still literally representable."""
+  _, evaluate = case
+  harness.hard_reset()
+  gin.external_configurable(_rr_fn, 'rr_fn', module='c06rr')
+  gin.parse_config('c06.g.t = @c06rr.rr_fn%s\nc06rr.rr_fn.x = 1\n' % ('()' if evaluate else ''))
+  before = gin.config_str()
+  gin.external_configurable(_rr_fn, 'rr_fn', module='c06rr')
+  res.case(('rereg', evaluate), True)
+  after = gin.config_str()
+  if after != before:
+    res.violation('rereg_changes_text', 'the same function registered again under the same name: config_str() was\n%s\n--- and '
+                  'is now\n%s' % (before, after), case)
+    return
+  harness.hard_reset()
+  gin.external_configurable(_rr_fn, 'rr_fn', module='c06rr')
+  gin.parse_config(after)
+  t = gin.get_configurable('c06.g')()
+  if (t if evaluate else t()) != 1:
+    res.violation('binding_not_restored', 're-registered referenced function: round trip gives %r\n%s' % (t, after), case)
+  else:
+    res.w('reference_survives_reregistration')
 
 
 # --------------------------------------------------------------- dynamic registration: binding order and implicit imports
@@ -668,6 +700,8 @@ def run_shard(i, tier):
         run_dotted(c, res)
       elif c[0] == 'dynorder':
         run_dynorder(c, res)
+      elif c[0] == 'rereg':
+        run_rereg(c, res)
       else:
         run_dyn(c, res)
     except Exception:  # pylint: disable=broad-except
@@ -690,6 +724,8 @@ def replay(desc):
     run_dotted(desc, res)
   elif desc[0] == 'dynorder':
     run_dynorder(desc, res)
+  elif desc[0] == 'rereg':
+    run_rereg(desc, res)
   else:
     run_config(desc[1], 'thorough', res)
   harness.hard_reset()
